@@ -204,7 +204,7 @@ func (te *taskEnv) execM3(op *Op, rec *OpRec) bool {
 		if err != nil {
 			rec.Err = err.Error()
 		}
-		rec.Extra = len(env.Sim.LiveLibTasks())
+		rec.Extra = env.watchLeft(env.Sim.LiveLibTasks())
 	case "m3spam":
 		// a producer that does not stop: once some task has called Close it keeps
 		// reporting until a Close call has returned. "Close returns" must not
@@ -227,6 +227,44 @@ func (te *taskEnv) execM3(op *Op, rec *OpRec) bool {
 		return false
 	}
 	return true
+}
+
+// starved is the simulator's question, during the fair continuation of a run,
+// whether some call is being kept from returning by work that keeps arriving.
+// For the M3 reporter: a Close that has been called and has not returned has to
+// wait for what was admitted before it shut the gate - at most the queue, the
+// batch being assembled and one report per producer, plus what the producers
+// got in before Close had its first few turns under round-robin scheduling. A
+// reporter that has sent more datagrams than that many metrics since the fair
+// continuation began, with Close still waiting, is letting new reports in
+// after Close began: "Close returns" then depends on the producers pausing.
+func (env *Env) starved() string {
+	st, _ := env.ext.(*m3State)
+	if st == nil || !st.is(&st.closeInvoked) || st.is(&st.closeReturned) {
+		return ""
+	}
+	if !env.starveArmed {
+		env.starveArmed, env.starveBase = true, len(env.Net.Log)
+		return ""
+	}
+	c := env.Prog.Cfg.M3
+	q := c.MaxQueue
+	if q <= 0 {
+		q = 4096
+	}
+	mp := int(c.MaxPacket)
+	if mp <= 0 {
+		mp = 32768
+	}
+	dests := c.Dests
+	if dests < 1 {
+		dests = 1
+	}
+	bound := dests * (q + 51*len(env.Prog.Tasks) + mp/25 + 8)
+	if sent := len(env.Net.Log) - env.starveBase; sent > bound {
+		return fmt.Sprintf("Close is starved: it was called and has not returned, and since fair scheduling began the reporter has sent %d datagrams, more than everything that can have been admitted before Close shut the gate (%d);", sent, bound)
+	}
+	return ""
 }
 
 // decoded datagram
